@@ -177,6 +177,9 @@ func c02Do(c *core.C, idx int, race bool) {
 		{"build --type", append([]string{"build", "-o", "-#format=binpb"}, flagEach("--type", selTypes)...), wsDir},
 		{"lint json", []string{"lint", "--error-format=json"}, wsDir},
 		{"lint text", []string{"lint"}, wsDir},
+		{"lint junit", []string{"lint", "--error-format=junit"}, wsDir},
+		{"lint github-actions", []string{"lint", "--error-format=github-actions"}, wsDir},
+		{"breaking junit", []string{"breaking", "--against", wsDir, "--error-format=junit"}, ws2},
 		{"breaking", []string{"breaking", "--against", wsDir, "--error-format=json"}, ws2},
 		{"format -d", []string{"format", "-d"}, wsDir},
 		{"format", []string{"format"}, wsDir},
@@ -194,7 +197,7 @@ func c02Do(c *core.C, idx int, race bool) {
 		var sel []c02Cmd
 		for _, cmd := range cmds {
 			switch cmd.name {
-			case "build binpb", "build --type", "lint json", "breaking", "format", "ls-files --include-imports", "dep graph json":
+			case "build binpb", "build --type", "lint json", "lint junit", "breaking", "format", "ls-files --include-imports", "dep graph json":
 				sel = append(sel, cmd)
 			}
 		}
@@ -441,8 +444,8 @@ func init() {
 	core.Register(&core.Check{
 		ID:    "C02",
 		Level: "exploration",
-		Rule: "per PRNG-generated workspace (3–5 modules incl. one whose packages form two import cycles sharing the first hop, lint plants, unformatted files, an edited copy for breaking): 17 commands " +
-			"(build binpb/json/txtpb/yaml, build --path, build --type, lint json/text, breaking, format, format -d, ls-files ±imports, dep graph dot/json, config ls-lint-rules/ls-breaking-rules) each executed 4 (quick) / 14 (thorough) times under GOMAXPROCS∈{1,2,4,16} × parallelism∈{1,2,3,16} × seeded yields at job dispatch × permuted flag order, " +
+		Rule: "per PRNG-generated workspace (3–5 modules incl. one whose packages form two import cycles sharing the first hop, lint plants, unformatted files, an edited copy for breaking): 20 commands " +
+			"(build binpb/json/txtpb/yaml, build --path, build --type, lint json/text/junit/github-actions, breaking junit, breaking, format, format -d, ls-files ±imports, dep graph dot/json, config ls-lint-rules/ls-breaking-rules) each executed 4 (quick) / 14 (thorough) times under GOMAXPROCS∈{1,2,4,16} × parallelism∈{1,2,3,16} × seeded yields at job dispatch × permuted flag order, " +
 			"plus permuted modules/rule ids in buf.yaml and shuffled storage walk order at library level; repeated in the -race build. A (workspace, command) pair is counted non-trivial only if ≥2 distinct job-completion orders were actually observed through the thread hook trace",
 		Assumptions: []string{
 			"only the mtime stamps in the ---/+++ headers that diff(1) prints for `format -d` are masked; they are a function of wall-clock time, which the property does not quantify over",
